@@ -6,13 +6,14 @@ goal.  ProofGame::distLowerBound(prefix -> final) must not exceed the game's own
 import glob
 import json
 import os
+import re
 import subprocess
 
 import vlib
 
 PID = "C16"
 SPEC, CFG, DIAG = "Tr_Proof.tla", "Tr_Proof.cfg", "Tr_Proof_diag.cfg"
-SIZES = {"quick": dict(games=48, filter_s=50, kgames=1400, bound_games=1500, per=10), "thorough": dict(games=3000, filter_s=2400, kgames=30000, bound_games=40000, per=16)}
+SIZES = {"quick": dict(games=48, filter_s=50, kgames=1400, pathgames=96, bound_games=1500, per=10), "thorough": dict(games=3000, filter_s=2400, kgames=30000, pathgames=3000, bound_games=40000, per=16)}
 
 
 def run(tier, seed):
@@ -101,6 +102,46 @@ def run(tier, seed):
         for x in kinfo:
             kinfo[x] += ki[x]
         kfiles.append(tp)
+    # proofs from an initial path: 'texelutil proofgame -ipgn <game> <goal>' starts from a given game.  Games that return to earlier
+    # positions and leave them by another move exercise the pruning of repeated positions in that path; the printed proof game must be
+    # a legal game ending in the goal like any other.
+    sg, sf, sdir = os.path.join(wd, "sgames.txt"), os.path.join(wd, "sfens.txt"), os.path.join(wd, "spgn")
+    os.makedirs(sdir, exist_ok=True)
+    vlib.sh([hp, "games", str(seed + 7000), str(sz["pathgames"]), sg, sf, "26", "shuffle"], timeout=900)
+    vlib.sh([hp, "pgn", sg, sdir], timeout=900)
+    sgl, sfl = open(sg).read().strip().split("\n"), open(sf).read().strip().split("\n")
+
+    def ipgn(k):
+        if not sgl[k].strip():
+            return None
+        try:
+            r = subprocess.run([tu, "proofgame", "-ipgn", os.path.join(sdir, f"g{k}.pgn"), sfl[k]], stdout=subprocess.PIPE, stderr=subprocess.STDOUT, text=True, timeout=40)
+        except subprocess.TimeoutExpired:
+            return (k, sfl[k] + " unknown: timeout")
+        if r.returncode != 0:
+            return (k, None, r.returncode, r.stdout[-300:])
+        lines = r.stdout.strip().split("\n")
+        proof = None
+        for i, ln in enumerate(lines):
+            if re.match(r"^\d+ -w ", ln) and i + 1 < len(lines):
+                proof = lines[i + 1].strip()
+        return (k, sfl[k] + (" legal: proof: " + proof if proof is not None else " unknown: no proof printed"))
+    pres = [x for x in vlib.pmap(ipgn, list(range(len(sgl)))) if x]
+    pok = [x for x in pres if len(x) == 2]
+    for x in pres:
+        if len(x) == 4:
+            rep.violation("filter-crash", f"texelutil proofgame -ipgn dies (exit {x[2]}) on game {sgl[x[0]][:200]}: {x[3]}")
+    pathinfo = {"positions": 0, "legal": 0, "unknown": 0, "illegal": 0}
+    if pok:
+        gp, op_, tp = os.path.join(wd, "sg.sel.txt"), os.path.join(wd, "so.sel.txt"), os.path.join(wd, "spg.ndjson")
+        open(gp, "w").write("\n".join(sgl[k] for k, _ in pok) + "\n")
+        open(op_, "w").write("\n".join(ln for _, ln in pok) + "\n")
+        pk = vlib.sh([hp, "convert", gp, op_, tp], timeout=600)
+        if pk.returncode != 0:
+            raise vlib.ToolFailure("h_proof convert (ipgn): " + pk.stderr[-300:])
+        pathinfo = json.loads(pk.stdout.strip().split("\n")[-1])
+        kfiles.append(tp)
+    rep.cov.update({"initial_path_games": len(pok), "initial_path_proofs": pathinfo["legal"]})
     # bounds on a larger set of games
     g2, f2 = os.path.join(wd, "games2.txt"), os.path.join(wd, "fens2.txt")
     vlib.sh([hp, "games", str(seed + 5000), str(sz["bound_games"]), g2, f2], timeout=900)
